@@ -33,3 +33,15 @@ fn query(deps: Deps, _e: Env, _m: HookQuery) -> StdResult<Binary> {
 pub fn contract() -> Box<dyn Contract<Empty>> {
     Box::new(ContractWrapper::new(execute, instantiate, query))
 }
+
+/// A "vault" that can be created through the vault factory (it accepts the vault's instantiate message) and then refuses
+/// every message: a registered child whose CollectProtocolFees fails (fault injection for the fee pipeline, C10).
+mod broken {
+    use super::*;
+    use cosmwasm_std::StdError;
+    fn instantiate(_d: DepsMut, _e: Env, _i: MessageInfo, _m: white_whale_std::vault_network::vault::InstantiateMsg) -> StdResult<Response> { Ok(Response::new()) }
+    fn execute(_d: DepsMut, _e: Env, _i: MessageInfo, _m: white_whale_std::vault_network::vault::ExecuteMsg) -> StdResult<Response> { Err(StdError::generic_err("broken vault")) }
+    fn query(_d: Deps, _e: Env, _m: white_whale_std::vault_network::vault::QueryMsg) -> StdResult<Binary> { Err(StdError::generic_err("broken vault")) }
+    pub fn contract() -> Box<dyn Contract<Empty>> { Box::new(ContractWrapper::new(execute, instantiate, query)) }
+}
+pub fn broken_vault_contract() -> Box<dyn Contract<Empty>> { broken::contract() }
